@@ -113,7 +113,22 @@ func main() {
 			emit(next("x"), opts{strict: false, links: true}, in)
 		}
 	}
+	// every binary16 pattern (ties the half->double widening of the model to Go exhaustively), relaxed so NaN/Inf pass
+	for a := 0; a < 65536; a++ {
+		emit(next("h"), opts{strict: false, links: true}, []byte{0xf9, byte(a >> 8), byte(a)})
+	}
 	rng := lib.NewRng(fl.Seed)
+	// a sample of binary32 patterns, with the exponent extremes over-represented
+	for i := 0; i < 20000; i++ {
+		w := uint32(rng.U64())
+		switch rng.Intn(4) {
+		case 0:
+			w &^= 0x7f800000 // subnormals / zero
+		case 1:
+			w |= 0x7f800000 // inf / nan
+		}
+		emit(next("s"), opts{strict: i%2 == 0, links: true}, []byte{0xfa, byte(w >> 24), byte(w >> 16), byte(w >> 8), byte(w)})
+	}
 	if fl.Tier == "thorough" {
 		// a large sample of all 3- and 4-byte strings
 		for i := 0; i < 1500000; i++ {
